@@ -38,4 +38,10 @@ def hMatch : Handler
     | _ => "bad-op"
   | _ => "bad-op"
 
+def dispatchMatch (op : String) (args : List String) : Option String :=
+  match op with
+  | "tok" => some (hTok args)
+  | "match" => some (hMatch args)
+  | _ => none
+
 end RTV.Drv
